@@ -8,6 +8,7 @@
 mod crash;
 mod explore;
 mod ops;
+mod post;
 mod probes;
 mod props;
 mod queue;
